@@ -120,11 +120,30 @@ where
         v.dedup();
         let bt: BTreeSet<&T> = items.iter().collect();
         let hs: HashSet<&T> = items.iter().collect();
-        (v.len(), bt.len(), hs.len(), sorted_ok)
+        // transitivity over every triple of the bag (a cycle can hide from pairwise checks and from sort)
+        let mut cycle: Option<(usize, usize, usize)> = None;
+        let n = items.len().min(10);
+        'tri: for x in 0..n {
+            for y in 0..n {
+                if items[x].cmp(&items[y]) != Ordering::Less {
+                    continue;
+                }
+                for z in 0..n {
+                    if items[y].cmp(&items[z]) == Ordering::Less && items[x].cmp(&items[z]) != Ordering::Less {
+                        cycle = Some((x, y, z));
+                        break 'tri;
+                    }
+                }
+            }
+        }
+        (v.len(), bt.len(), hs.len(), sorted_ok, cycle)
     });
     match r {
         Err(m) => rep.violation(case, format!("C19:panic:bag:{}:{}", kind, norm_loc(&last_panic_loc())), format!("sort/dedup/sets panicked ({}) on {:?}", m, distinct)),
-        Ok((d, b, hcount, sorted_ok)) => {
+        Ok((d, b, hcount, sorted_ok, cycle)) => {
+            if let Some((x, y, z)) = cycle {
+                rep.violation(case, format!("C19:cmp-not-transitive:{}", kind), format!("a < b and b < c but not a < c: a = {} b = {} c = {}", items[x], items[y], items[z]));
+            }
             if d != distinct.len() || b != distinct.len() || hcount != distinct.len() || !sorted_ok {
                 rep.violation(
                     case,
@@ -321,6 +340,30 @@ pub fn run(cfg: &RunCfg, rep: &mut Report) {
                     }
                 }
             }
+            // values that were USED (scripts, addresses, spend info computed: caches filled) against
+            // fresh equal values: use must not change equality, order or hash
+            if cx == Cx::Tap && i % 4 == 0 {
+                let world = crate::world::World::new(rep.cfg.seed);
+                let mut used: Vec<Descriptor<crate::world::Dk>> = vec![];
+                for w in wrap.iter().take(3) {
+                    for (f, _) in frags.iter().take(2) {
+                        let s = w(&f.to_string_with(&world)).replace("KI", &world.keys[5].xonly_hex).replace("KX", &world.keys[6].xonly_hex).replace("KY", &world.keys[7].xonly_hex);
+                        let parse = || guarded(|| Descriptor::<crate::world::Dk>::from_str(&s)).ok().and_then(|r| r.ok());
+                        if let (Some(d1), Some(d2), Some(d3)) = (parse(), parse(), parse()) {
+                            let _ = guarded(std::panic::AssertUnwindSafe(|| (d1.script_pubkey(), d1.address(miniscript::bitcoin::Network::Bitcoin).ok())));
+                            if let Descriptor::Tr(t) = &d3 {
+                                let _ = guarded(std::panic::AssertUnwindSafe(|| t.spend_info().leaves().count()));
+                            }
+                            laws(rep, i, "descriptor-after-use", &d1, &d2, &d3, "same text: a used (script_pubkey, address), b fresh, c used (spend_info)");
+                            used.push(d1);
+                            used.push(d2);
+                        }
+                    }
+                }
+                if used.len() >= 3 {
+                    bag_laws(rep, i, "descriptor-after-use", &used);
+                }
+            }
             if descs.len() >= 3 {
                 for x in 0..descs.len().min(8) {
                     for y in 0..descs.len().min(8) {
@@ -387,6 +430,48 @@ pub fn run(cfg: &RunCfg, rep: &mut Report) {
             for y in 0..sem.len() {
                 let z = (x + y + 1) % sem.len();
                 laws(rep, i, "semantic-policy", &sem[x].0, &sem[y].0, &sem[z].0, sem[y].1);
+            }
+        }
+        // thresholds over child lists that are prefixes of one another, with every k: orderings that
+        // compare children before k and n, or k before the children, disagree exactly here
+        if i % 3 == 0 {
+            let m = 2 + rng.below(2);
+            let base: Vec<Pol> = (0..m).map(|j| Pol::Atom(crate::pol::Atom::Key(j))).collect();
+            let mut lists: Vec<Vec<Pol>> = vec![base.clone()];
+            for extra in [m, m + 1] {
+                let mut l = base.clone();
+                l.push(Pol::Atom(crate::pol::Atom::Key(extra)));
+                lists.push(l);
+            }
+            let mut fam: Vec<Pol> = vec![];
+            for l in &lists {
+                for k in 1..=l.len() {
+                    fam.push(if k == 1 {
+                        Pol::Or(l.iter().map(|c| (1usize, c.clone())).collect())
+                    } else if k == l.len() {
+                        Pol::And(l.clone())
+                    } else {
+                        Pol::Thresh(k, l.clone())
+                    });
+                }
+            }
+            rng.shuffle(&mut fam);
+            fam.truncate(10);
+            let sems: Vec<SemW> = fam.iter().filter_map(|q| Semantic::<String>::from_str(&q.semantic(&nm)).ok().map(SemW)).collect();
+            if sems.len() >= 3 {
+                bag_laws(rep, i, "semantic-policy", &sems);
+            }
+            let concs: Vec<Concrete<String>> = fam
+                .iter()
+                .filter_map(|q| match q {
+                    Pol::Thresh(k, l) => Concrete::<String>::from_str(&format!("thresh({},{})", k, l.iter().map(|c| c.concrete(&nm)).collect::<Vec<_>>().join(","))).ok(),
+                    Pol::And(l) => Some(Concrete::And(l.iter().filter_map(|c| Concrete::<String>::from_str(&c.concrete(&nm)).ok().map(std::sync::Arc::new)).collect())),
+                    Pol::Or(l) => Some(Concrete::Or(l.iter().filter_map(|(w, c)| Concrete::<String>::from_str(&c.concrete(&nm)).ok().map(|x| (*w, std::sync::Arc::new(x)))).collect())),
+                    _ => None,
+                })
+                .collect();
+            if concs.len() >= 3 {
+                bag_laws(rep, i, "concrete-policy", &concs);
             }
         }
         if conc.len() >= 2 {
